@@ -37,11 +37,13 @@ def main() -> None:
         from hta.common.trace import Trace
         from hta.common.trace_symbol_table import TraceSymbolTable
         from hta.trace_analysis import TraceAnalysis
+        mapping = os.environ.get("VF_C11_MAPPING", "")
+        files = {int(k): v for k, v in json.loads(mapping).items()} if mapping else None
         if mp:
-            ta = TraceAnalysis(trace_dir=d)
+            ta = TraceAnalysis(trace_files=files, trace_dir=d)
         else:
             ta = TraceAnalysis.__new__(TraceAnalysis)
-            ta.t = Trace(trace_dir=d)
+            ta.t = Trace(trace_files=files, trace_dir=d)
             ta.t.load_traces(use_multiprocessing=False)
         if renum != "none":
             old = ta.t.symbol_table
